@@ -513,6 +513,7 @@ def main():
         'assumptions': cfg.get('assumptions', []) + manifest_note(pid),
         'wall_s': round(time.time() - t0, 2),
         'violations': len(violations),
+        'known_findings_reproduced': [{'line': l, 'what': known_lines[l].get('what', '')[:300]} for l in sorted(known_hit)],
     }
     if proof_broken:
         # a broken proof obligation: no theorem count is claimed for this run
